@@ -1,11 +1,14 @@
 //! smlmc — bounded exhaustive exploration of sml-rs against reference models.
+pub mod alloc;
 pub mod dec;
 pub mod e1;
 pub mod e1c;
 pub mod e2;
+pub mod e4;
 pub mod fe;
 pub mod json;
 pub mod mon;
 pub mod par;
 pub mod refm;
 pub mod report;
+pub mod sml;
